@@ -29,6 +29,7 @@ import (
 	"fmt"
 	"math/rand"
 	"os"
+	"runtime/debug"
 	"sort"
 	"sync"
 	"testing"
@@ -349,7 +350,7 @@ func vC20Run(scn vC20Scenario) []map[string]interface{} {
 		defer close(done)
 		defer func() {
 			if r := recover(); r != nil {
-				g.log(map[string]interface{}{"ev": "panic", "what": fmt.Sprint(r)})
+				g.log(map[string]interface{}{"ev": "panic", "what": fmt.Sprint(r), "stack": string(debug.Stack())})
 			}
 		}()
 		items := []int{}
@@ -394,7 +395,7 @@ func vC20Run(scn vC20Scenario) []map[string]interface{} {
 	have := func(a *vC20Arrival) []int {
 		out := []int{}
 		for _, u := range a.batch {
-			if exists[u] {
+			if exists[u] && u/10 == a.c { // a backend has the objects of its own cluster only
 				out = append(out, u)
 			}
 		}
